@@ -296,6 +296,58 @@ theorem interpolate_eval (L : Lawful O v) (hT : Total O) (xs ys : List α) (rlz 
     simp [List.getD_eq_getElem?_getD, hi']
   rw [e1]
 
+
+-- ------------------------------------------------------------------ uniqueness
+
+/-- a polynomial vanishing at pairwise distinct points is divisible by `∏ (X − a_i)` -/
+theorem rootsPoly_dvd_of_eval_eq_zero (l : List F) (hnd : l.Nodup) (D : F[X])
+    (h : ∀ a ∈ l, D.eval a = 0) : rootsPoly l ∣ D := by
+  induction l generalizing D with
+  | nil => simp
+  | cons a l ih =>
+    have ha : D.eval a = 0 := h a (by simp)
+    obtain ⟨D', hD'⟩ := dvd_iff_isRoot.2 ha
+    have hnd' := List.nodup_cons.1 hnd
+    have hD'0 : ∀ b ∈ l, D'.eval b = 0 := by
+      intro b hb
+      have hb0 := h b (by simp [hb])
+      rw [hD', eval_mul, eval_sub, eval_X, eval_C] at hb0
+      have hne : b - a ≠ 0 := sub_ne_zero.2 (fun e => hnd'.1 (e ▸ hb))
+      exact (mul_eq_zero.1 hb0).resolve_left hne
+    obtain ⟨E, hE⟩ := ih hnd'.2 D' hD'0
+    exact ⟨E, by rw [rootsPoly_cons, hD', hE]; ring⟩
+
+/-- two polynomials of degree `< n` that agree on `n` pairwise distinct points are equal -/
+theorem eq_of_eval_eq_on (l : List F) (hnd : l.Nodup) (f g : F[X])
+    (hf : f.degree < (l.length : WithBot ℕ)) (hg : g.degree < (l.length : WithBot ℕ))
+    (h : ∀ a ∈ l, f.eval a = g.eval a) : f = g := by
+  have hdvd := rootsPoly_dvd_of_eval_eq_zero l hnd (f - g) (fun a ha => by simp [h a ha])
+  have hdeg : (f - g).degree < (rootsPoly l).degree := by
+    rw [degree_eq_natDegree (monic_rootsPoly l).ne_zero, natDegree_rootsPoly]
+    exact lt_of_le_of_lt (degree_sub_le f g) (max_lt hf hg)
+  exact sub_eq_zero.1 (eq_zero_of_dvd_of_degree_lt hdvd hdeg)
+
+/-- interpolating the values of a polynomial with at most `n` coefficients on `n` pairwise distinct
+    points gives that polynomial back -/
+theorem interpolate_evalMany (L : Lawful O v) (hT : Total O) (xs p : List α)
+    (hnd : (xs.map v).Nodup) (hp : p.length ≤ xs.length) :
+    ∃ r, interpolate O xs (evalMany O p xs) false = .ok r ∧ r.length = xs.length ∧
+      toPoly v r = toPoly v p := by
+  have hlen : xs.length = (evalMany O p xs).length := by simp [evalMany]
+  obtain ⟨r, e, _, l2, _, h⟩ := interpolate_eval L hT xs (evalMany O p xs) false hlen hnd
+  refine ⟨r, e, l2 rfl, ?_⟩
+  apply eq_of_eval_eq_on (xs.map v) hnd
+  · have := toPoly_length_lt v r
+    rw [l2 rfl] at this
+    simpa using this
+  · refine lt_of_lt_of_le (toPoly_length_lt v p) ?_
+    simpa using hp
+  · intro a ha
+    obtain ⟨j, hj, rfl⟩ := List.getElem_of_mem ha
+    have hj' : j < xs.length := by simpa using hj
+    rw [List.getElem_map, h j hj']
+    simp [evalMany, v_eval L]
+
 end
 
 end WinterProofs.C20
